@@ -158,6 +158,86 @@ def whyNot (g : LGraph) (i : Nat) : String :=
 def outsideFragment (g : LGraph) : List String :=
   (((List.range g.size).filter fun j => !suppNode g j).map (whyNot g)).eraseDups
 
+/-! ## the fragment with reductions -/
+
+mutual
+/-- `ranksOK` for an expression under the reduction variables `rv`: a bare name is a reduction
+    variable or a 0-d binding -/
+def ranksOKS (rk : String → Option Nat) (rv : List String) : SExpr → Bool
+  | .int _ | .bool _ | .rat _ _ | .nan | .idx _ => true
+  | .var x => rv.contains x || rk x == some 0
+  | .sub a ix => (rk a == some ix.length) && ranksOKSList rk rv ix
+  | .add a c | .mul a c | .quot a c | .fdiv a c | .rem a c | .pow a c | .cmp _ a c | .land a c | .lor a c =>
+    ranksOKS rk rv a && ranksOKS rk rv c
+  | .lnot a | .cast _ a => ranksOKS rk rv a
+  | .ite c t e => ranksOKS rk rv c && ranksOKS rk rv t && ranksOKS rk rv e
+  | .reduce _ _ lo hi body => ranksOKS rk rv lo && ranksOKS rk rv hi && ranksOKS rk rv body
+  | .call f args => f == "pytato.zero" || ranksOKSList rk rv args
+def ranksOKSList (rk : String → Option Nat) (rv : List String) : List SExpr → Bool
+  | [] => true
+  | e :: es => ranksOKS rk rv e && ranksOKSList rk rv es
+end
+
+/-- one level of a chain of reductions: operation, variable, bounds -/
+abbrev Level := RedOp × String × SExpr × SExpr
+
+/-- the reductions at the root of an expression (one `Reduce` node over several variables is a
+    chain), and what they reduce -/
+def splitChain : SExpr → List Level × SExpr
+  | .reduce op v lo hi body => ((op, v, lo, hi) :: (splitChain body).1, (splitChain body).2)
+  | e => ([], e)
+
+def mkChain : List Level → SExpr → SExpr
+  | [], b => b
+  | (op, v, lo, hi) :: r, b => .reduce op v lo hi (mkChain r b)
+
+def isIntLit : SExpr → Bool
+  | .int _ => true
+  | _ => false
+
+/-- node `i` is a REDUCTION of the fragment: a chain of reductions with constant bounds at the
+    root of the expression, over a reduction-free expression of the fragment; the variables are
+    distinct, are not names of bindings, and are listed in the chain's order by both descriptors;
+    every bound is hoisted (what `is_quasi_affine` of the installed loopy makes of every bound); the
+    result has at least one axis (TODO: 0-d results, whose bound temporaries are statements) -/
+def redNode (g : LGraph) (i : Nat) : Bool :=
+  match g.get i with
+  | .indexLambda shape e binds impl _ uo rvars =>
+    let ch := (splitChain e).1
+    let body := (splitChain e).2
+    let vars := ch.map (·.2.1)
+    !isEmptyShape shape && !(shape.length == 0) && !ch.isEmpty &&
+      ch.all (fun c => isIntLit c.2.2.1 && isIntLit c.2.2.2) &&
+      decide vars.Nodup && vars.all (fun v => !(binds.map (·.1)).contains v) &&
+      (uo == vars) && (rvars.map (·.name) == vars) &&
+      rvars.all (fun rv => !rv.loAffine && !rv.hiAffine) &&
+      exprOK shape.length body && ranksOKS (rankIn g binds) vars body &&
+      (match impl with | .unknown _ => false | _ => true)
+  | _ => false
+
+def suppNodeR (g : LGraph) (i : Nat) : Bool := suppNode g i || redNode g i
+
+def suppAllR (g : LGraph) : Nat → Nat → Bool
+  | 0, _ => false
+  | fuel + 1, i => suppNodeR g i && (kidsOf g i).all (suppAllR g fuel)
+
+def fragmentCheckR (g : LGraph) : Bool := wfG g && (List.range g.size).all (suppNodeR g)
+
+/-- why node `i` is outside the fragment with reductions (for the driver's report) -/
+def whyNotR (g : LGraph) (i : Nat) : String :=
+  match g.get i with
+  | .indexLambda shape e _ _ _ uo rvars =>
+    if uo.isEmpty && rvars.isEmpty then whyNot g i
+    else if isEmptyShape shape then "empty-axis"
+    else if shape.length == 0 then "reduction-0d"
+    else if !((splitChain e).1.all fun c => isIntLit c.2.2.1 && isIntLit c.2.2.2) then "reduction-bounds"
+    else if hasBool (splitChain e).2 then "boolean-constant"
+    else "reduction-other"
+  | _ => whyNot g i
+
+def outsideFragmentR (g : LGraph) : List String :=
+  (((List.range g.size).filter fun j => !suppNodeR g j).map (whyNotR g)).eraseDups
+
 /-- extent of a statement's loop box (constant upper bounds) -/
 def extent (s : KStmt) : Shape :=
   s.loops.map fun l => match l.2.2 with | .int n => n.toNat | _ => 0
